@@ -14,13 +14,37 @@ package hash
 //@ func (g *gen) Generate(typs []types.Type) (err error)
 //@ param typs: len=1
 
+// C04 is relational: values that derived Equal considers equal hash alike. It is
+// decided on the product program of each emitted function (two copies in
+// lockstep, @1 and @2). Callers use a hash function through HashSpec(T, x), a
+// function of the value for which EqC(T, x, y) ==> HashSpec(T, x) == HashSpec(T, y);
+// that such a function exists is exactly what the relational clause proves.
 //@ func (g *gen) field(fieldName string, fieldType types.Type) (s string, err error)
-//@ abstract: expr classes=Call
+//@ abstract: expr classes=Call,Sum
 //@ param fieldName: classes=Primary,Star,Amp type=fieldType
+//@ emits: expr
+//@ basic-unnamed-variants
+//@ o-operands: fieldName:fieldType -> uint64
+//@ o-pure
+//@ o-caller-ensures: r == HashSpec(fieldType, fieldName)
+//@ o-rel-requires: EqC(fieldType, fieldName@1, fieldName@2)
+//@ o-rel-ensures: [respects-Equal] r@1 == r@2
 
 //@ func (g *gen) genStatement(o string, typ types.Type) (err error)
 //@ abstract: stmt returns
-//@ param o: classes=Ident,Star type=typ
+//@ param o: classes=Ident type=typ
+//@ emits: stmts
+//@ basic-unnamed-variants
+//@ o-operands: o:typ -> uint64
+//@ o-pure
+//@ o-caller-ensures: r == HashSpec(typ, o)
+//@ o-rel-requires: EqTop(typ, o@1, o@2)
+//@ o-rel-ensures: [respects-Equal] r@1 == r@2
+//@ o-rel-loop: when basickind(typ)==string=yes 1: invariant h@1 == h@2
+//@ o-rel-loop: when kind(typ)=Slice 1: invariant h@1 == h@2 && i@1 == i@2 && 0 <= i@1
+//@ o-rel-loop: when kind(typ)=Array 1: invariant h@1 == h@2 && i@1 == i@2 && 0 <= i@1
+//@ o-fork: when kind(typ)=Map flat key(typ)
+//@ o-rel-loop: when kind(typ)=Map 1: invariant h@1 == h@2 && sortedKeysOf(key(typ), o@1, Ħx1) && sortedKeysOf(key(typ), o@2, Ħx2)
 
 //@ func (g *gen) genFunc(typs []types.Type) (err error)
 //@ param typs: len=1
@@ -28,4 +52,6 @@ package hash
 //@ serves: hash len=1 typs=typs
 //@ o-sig: (object $typs[0]) (r uint64)
 //@ o-pure
-//@ o-ensures: [hash] r == HashSpec(typs0, object)
+//@ o-caller-ensures: r == HashSpec(typs0, object)
+//@ o-rel-requires: EqTop(typs0, object@1, object@2)
+//@ o-rel-ensures: [respects-Equal] r@1 == r@2
